@@ -51,6 +51,13 @@ func VH_C11_Collect() {
 	m := verifrt.Cfg("m")
 	which := verifrt.Cfg("point") // 0 ready, 1 ante, 2 blinds
 	bk := &vhBackend{m: m, tag: "bk0", faults: false}
+	// the state the hand engine hands back when the collection point completes already carries
+	// permissions of its own (here: pay and ready for everybody)
+	bk.fix = func(next *pokerface.GameState) {
+		for _, p := range next.Players {
+			p.AllowedActions = []string{Action_Pay, Action_Ready}
+		}
+	}
 	g, rec := vhNewGame(m, bk)
 	gs := vhRequestState(m, which)
 	g.gs = gs
@@ -158,6 +165,15 @@ func VH_C11_Collect() {
 				verifrt.Assert(rec.blinds == 1, "blinds-received event emitted once")
 			}
 			verifrt.Assert(rec.errors == 0, "no error with a working backend")
+			// the completion callback tidies up the permissions of the collection point it belongs
+			// to; the NEXT state (already current, possibly already being handled by the updater:
+			// its own collection point may have granted "pay" / "ready" on it) is none of its business
+			cur := g.gs
+			verifrt.Assert(cur != nil && bk.last != nil && len(cur.Players) == len(bk.last.Players), "the hand is now at the state the backend produced")
+			for i := range cur.Players {
+				verifrt.Assert(vhHasString(cur.Players[i].AllowedActions, Action_Pay) && vhHasString(cur.Players[i].AllowedActions, Action_Ready),
+					"moving on leaves the pay / ready permissions of the next state as the hand engine produced them")
+			}
 		}
 	}
 	verifrt.Reach("end")
